@@ -165,6 +165,7 @@ type Stream struct {
 	Paths    map[int]*PathInfo
 	Consumed *lin.Expr // elements consumed so far by summarised readers
 	Homog    bool      // stands for a symbolic number of sibling streams
+	OutParam bool      // a send-only channel parameter of the analysed root
 	Unknown  bool      // shape could not be determined
 	ForkID   int       // >0 for outputs of a fork
 	ForkIdx  int
@@ -216,6 +217,8 @@ type StageIn struct {
 	Drained  bool
 	InLoop   bool
 	Order    int
+	Partial  bool // some exit leaves (a sibling of) this input undrained
+	Homog    bool // received inside a loop over a slice of symbolic length
 }
 
 type SendInfo struct {
